@@ -218,7 +218,10 @@ class UMNDirHandler(DirHandler):
                 done["host"] = 1
             elif line[0:5] == "Port=":
                 if line[5:] != "+":
-                    entry.setport(int(line[5:]))
+                    try:  # Don't crash if we can't parse the number
+                        entry.setport(int(line[5:]))
+                    except ValueError:
+                        pass
                 done["port"] = 1
             elif line[0:5] == "Numb=":
                 try:  # Don't crash if we can't parse the number
